@@ -634,10 +634,10 @@ Definition atomic_emit (w : option wf) (gt : option trafo) : list loop :=
 Definition chain (a : trafo) (g : option trafo) : trafo := match g with Some g => a ++ g | None => a end.
 
 (* ArithmeticPulseTemplate._get_scalar_value / _get_transformation *)
-Definition scalar_values (s : scope) (cm : chanmap) (scalar : expr + list (chan * expr)) (chans : list chan)
+Definition scalar_values (look : N -> result Q) (cm : chanmap) (scalar : expr + list (chan * expr)) (chans : list chan)
   : result cdict :=
   match scalar with
-  | inl e => v <- evals s e ;;
+  | inl e => v <- eval look e ;;
              Ok (fold_left (fun acc c => match cm c with
                                          | Some m => cupdate m v acc
                                          | None => acc
@@ -646,15 +646,15 @@ Definition scalar_values (s : scope) (cm : chanmap) (scalar : expr + list (chan 
                 match l with
                 | [] => Ok acc
                 | (c, e) :: r => match cm c with
-                                 | Some m => v <- evals s e ;; go r (cupdate m v acc)
+                                 | Some m => v <- eval look e ;; go r (cupdate m v acc)
                                  | None => go r acc
                                  end
                 end) l []
   end.
 
-Definition arith_trafo (s : scope) (cm : chanmap) (pt_is_lhs : bool) (op : sop) (scalar : expr + list (chan * expr))
+Definition arith_trafo (look : N -> result Q) (cm : chanmap) (pt_is_lhs : bool) (op : sop) (scalar : expr + list (chan * expr))
            (chans : list chan) : result trafo :=
-  sv <- scalar_values s cm scalar chans ;;
+  sv <- scalar_values look cm scalar chans ;;
   let neg1 := fold_left (fun acc c => match cm c with
                                       | Some m => cupdate m (-1 # 1) acc
                                       | None => acc
@@ -674,6 +674,16 @@ Definition arith_trafo (s : scope) (cm : chanmap) (pt_is_lhs : bool) (op : sop) 
     | SMul => Ok [TScale sv]
     | SDiv => Err EValue
     end.
+
+(* ParallelChannelPulseTemplate._get_overwritten_channels_values *)
+Fixpoint par_values (look : N -> result Q) (cm : chanmap) (l : list (chan * expr)) (acc : cdict) : result cdict :=
+  match l with
+  | [] => Ok acc
+  | (c, e) :: r => match cm c with
+                   | Some m => v <- eval look e ;; par_values look cm r (cupdate m v acc)
+                   | None => par_values look cm r acc
+                   end
+  end.
 
 (* _create_program / _internal_create_program of every template class, in the functional form of the LoopBuilder:
    the result is the list of children appended to the current top loop *)
@@ -707,18 +717,11 @@ Fixpoint cp (p : pt) (s : scope) (cm : chanmap) (gt : option trafo) : result (li
       cs <- cp body s cm gt ;;
       match cs with [] => Ok [] | _ => Ok [reverse_loop (Nest 1 cs)] end
   | PPar body ow =>
-      vals <- (fix go (l : list (chan * expr)) (acc : cdict) : result cdict :=
-                 match l with
-                 | [] => Ok acc
-                 | (c, e) :: r => match cm c with
-                                  | Some m => v <- evals s e ;; go r (cupdate m v acc)
-                                  | None => go r acc
-                                  end
-                 end) ow [] ;;
+      vals <- par_values (lookup s) cm ow [] ;;
       (* NOTE (as in the code): the global transformation is chained BEFORE the node's own overwrite *)
       cp body s cm (Some (match gt with Some g => g ++ [TOver vals] | None => [TOver vals] end))
   | PArith lhs op scalar body =>
-      tr <- arith_trafo s cm lhs op scalar (pt_chans body) ;;
+      tr <- arith_trafo (lookup s) cm lhs op scalar (pt_chans body) ;;
       cp body s cm (Some (chain tr gt))
   end.
 
